@@ -784,13 +784,36 @@ def _container_use(name, funcs):
                     isinstance(node.value.value, ast.Name) and \
                     node.value.value.id == 'self':
                 mutated.append(qn)
-            if isinstance(node, ast.Attribute) and \
-                    node.attr == name and \
-                    isinstance(node.ctx, ast.Store) and \
-                    isinstance(node.value, ast.Name) and \
-                    node.value.id == 'self':
-                rebound = True
+            if isinstance(node, ast.AugAssign) and _is_self_attr(
+                    node.target, name):
+                # `self.x += [...]` extends the shared object in place
+                mutated.append(qn)
+            if isinstance(node, ast.Assign):
+                for t in node.targets:
+                    for tt, vv in _pairs(t, node.value):
+                        if _is_self_attr(tt, name) and not any(
+                                _is_self_attr(x, name)
+                                for x in ast.walk(vv)):
+                            # bound to something that is not derived from
+                            # the shared object itself
+                            rebound = True
     return mutated, rebound
+
+
+def _is_self_attr(node, name):
+    return isinstance(node, ast.Attribute) and node.attr == name and \
+        isinstance(node.value, ast.Name) and node.value.id == 'self'
+
+
+def _pairs(target, value):
+    if isinstance(target, (ast.Tuple, ast.List)) and \
+            isinstance(value, (ast.Tuple, ast.List)) and \
+            len(target.elts) == len(value.elts):
+        out = []
+        for a, b in zip(target.elts, value.elts):
+            out.extend(_pairs(a, b))
+        return out
+    return [(target, value)]
 
 
 def _container_use_foreign(name, prog):
@@ -919,7 +942,8 @@ def per_instance_registries(ctx, rule_id='C09.D6', modules=C09_MODULES,
                    'class attribute %s is a mutable container that %s '
                    'mutate(s) in place through self and that is never bound '
                    'on the instance: all instances share ONE container (%s)'
-                   % (name, sorted(set(mutated))[:2], consequence))
+                   % (name, sorted(set(mutated))[:2], consequence),
+                   {'mutators': sorted(set(mutated))})
     # the same sharing arises from a MUTABLE DEFAULT ARGUMENT that is kept
     # (self.x = param) or mutated in place: one object for every call
     for c in prog.all_classes.values():
